@@ -174,6 +174,35 @@ def check_translation(case, ctx):
             npaired += _cmp_tables(
                 t0, t1, dx, dy,
                 lambda k: m <= xa[k] <= nx - 1 - m and m <= ya[k] <= ny - 1 - m, api)
+        elif api == 'dao_xycoords':
+            # supplied coordinates (incl. exactly half-integer ones) replace
+            # peak finding: rows must shift with the coordinates
+            xy = []
+            for s_ in case['scene']['sources']:
+                x_, y_ = s_['x'], s_['y']
+                h = case['half'][len(xy) % len(case['half'])]
+                x_ = math.floor(x_) + 0.5 if h in (1, 3) else x_
+                y_ = math.floor(y_) + 0.5 if h in (2, 3) else y_
+                if 8 <= x_ <= nx - 9 and 8 <= y_ <= ny - 9:
+                    xy.append((x_, y_))
+            if not xy:
+                return
+            xy = np.array(xy)
+            kw = dict(sharplo=-1e30, sharphi=1e30, roundlo=-1e30, roundhi=1e30)
+            cls = DAOStarFinder if case['thr'] < 3 else IRAFStarFinder
+            t0 = cls(thr, 3.0, xycoords=xy, **kw)(img.copy(), mask=mask)
+            t1 = cls(thr, 3.0, xycoords=xy + np.array([dx, dy]), **kw)(
+                big.copy(), mask=bmask)
+            if t0 is None:
+                require(t1 is None, 'translation_none', api)
+                return
+            require(t1 is not None and len(t1) == len(t0), 'translation_count',
+                    f'{cls.__name__}(xycoords): {len(t0)} rows vs '
+                    f'{0 if t1 is None else len(t1)} on the canvas')
+            npaired += _cmp_tables(t0, t1, dx, dy, lambda k: True, api,
+                                   by_index=True)
+            if any(h for h in case['half']):
+                ctx.event('half_integer_xycoords')
         elif api in ('detect', 'deblend'):
             s0 = detect_sources(img, thr, 5, mask=mask)
             s1 = detect_sources(big, thr, 5, mask=bmask)
@@ -297,7 +326,9 @@ def translation_cases(draw):
             'pad': [draw(st.integers(0, 40)), draw(st.integers(0, 40))],
             'api': draw(st.sampled_from(['aperture', 'find_peaks', 'dao', 'iraf',
                                          'star', 'detect', 'deblend', 'catalog',
-                                         'catalog', 'profile', 'model'])),
+                                         'catalog', 'profile', 'model',
+                                         'dao_xycoords'])),
+            'half': draw(st.lists(st.integers(0, 3), min_size=1, max_size=5)),
             'thr': draw(st.sampled_from([2.5, 4.0])), 'box': draw(st.sampled_from([3, 5])),
             'r': draw(st.floats(1.5, 5.0)), 'shape': draw(st.sampled_from(['circle', 'ellipse'])),
             'theta': draw(st.floats(0, 3.1)),
@@ -367,11 +398,16 @@ def check_transpose(case, ctx):
                 return
             bkg = np.tile(np.arange(nx, dtype=float), (ny, 1)) * 0.05 + 1.0 \
                 + np.arange(ny, dtype=float)[:, None] * 0.002
-            c0 = SourceCatalog(img, s0, error=err, mask=mask, background=bkg)
+            lbw = case.get('localbkg_width', 0)
+            c0 = SourceCatalog(img, s0, error=err, mask=mask, background=bkg,
+                               localbkg_width=lbw)
             c1 = SourceCatalog(imgT, SegmentationImage(np.ascontiguousarray(s0.data.T)),
                                error=errT, mask=maskT,
-                               background=np.ascontiguousarray(bkg.T))
-            cols = [c for c in CAT_COLS if c not in ('perimeter', 'local_background')]
+                               background=np.ascontiguousarray(bkg.T),
+                               localbkg_width=lbw)
+            if lbw:
+                ctx.event('local_background')
+            cols = [c for c in CAT_COLS if c not in ('perimeter',)]
             t0, t1 = c0.to_table(columns=cols), c1.to_table(columns=cols)
             # same label image transposed -> same labels, same row order
             for k in range(len(t0)):
@@ -453,6 +489,7 @@ def transpose_cases(draw):
             'r': draw(st.floats(1.5, 5.0)),
             'shape': draw(st.sampled_from(['ellipse', 'ellipse', 'rect'])),
             'method': draw(st.sampled_from(['exact', 'center', 'subpixel'])),
+            'localbkg_width': draw(st.sampled_from([0, 4, 7])),
             'theta': draw(st.floats(0, 3.1))}
 
 
